@@ -190,7 +190,7 @@ pub fn subjects(tier: Tier) -> Vec<Subject> {
     }
     // generated programs
     let (jobs, _) = c01::family_jobs(Tier::Quick, &["S", "P", "D", "T", "X"]);
-    let step = (jobs.len() / tier.pick(160, 6000)).max(1);
+    let step = (jobs.len() / tier.pick(400, 6000)).max(1);
     for (i, j) in jobs.iter().enumerate() {
         if i % step == 0 {
             let mut p = j.prog.clone();
@@ -333,6 +333,15 @@ fn histories(tier: Tier, budget: &Budget, coll: &Collector) -> (u64, u64, bool) 
     (seqs.len() as u64 + n as u64, comps.load(Ordering::Relaxed) + n as u64, done == seqs.len())
 }
 
+struct TimingGuard(String, Instant);
+impl Drop for TimingGuard {
+    fn drop(&mut self) {
+        if std::env::var("VERIF_TIMING").is_ok() && self.1.elapsed().as_secs_f64() > 3.0 {
+            eprintln!("C06 timing: subject {} took {:.1}s", self.0, self.1.elapsed().as_secs_f64());
+        }
+    }
+}
+
 pub fn run(tier: Tier) -> i32 {
     let start = Instant::now();
     let budget = Budget::new(tier.pick(150.0, 3000.0));
@@ -344,8 +353,12 @@ pub fn run(tier: Tier) -> i32 {
     let capped_points = AtomicU64::new(0);
     let per_subject: Mutex<BTreeMap<String, serde_json::Value>> = Mutex::new(BTreeMap::new());
     let outcome_kinds: Mutex<BTreeMap<String, u64>> = Mutex::new(BTreeMap::new());
+    let slow_limit = tier.pick(0.4, 3.0);
+    let skipped_slow: Mutex<Vec<String>> = Mutex::new(vec![]);
     let done = par_range(subs.len(), &budget, |si| {
         let s = &subs[si];
+        let t_sub = Instant::now();
+        let _timing = TimingGuard(s.name.clone(), t_sub);
         let site = format!("order/{}", s.name.split(':').next().unwrap_or(&s.name));
         let case = |sched: &str, extra: serde_json::Value| json!({"kind": "iteration-order", "subject": s.name, "source": s.src, "consts": format!("{:?}", s.consts), "register": s.register, "schedule": sched, "extra": extra});
         // default schedule, twice: the harness must own every source of nondeterminism
@@ -353,6 +366,12 @@ pub fn run(tier: Tier) -> i32 {
         // differently by every `RandomState::new()`, so each further run halves the chance that a
         // two-entry map happens to iterate in the same order again)
         let (base, log) = observe(s, vec![]);
+        // a subject whose single compilation is slow (documented examples with large arrays) would
+        // dominate the wall time of the whole exploration: left out and counted
+        if t_sub.elapsed().as_secs_f64() > slow_limit {
+            skipped_slow.lock().unwrap().push(s.name.clone());
+            return;
+        }
         let mut reproducible = true;
         for _ in 0..4 {
             let (base2, log2) = observe(s, vec![]);
@@ -424,7 +443,7 @@ pub fn run(tier: Tier) -> i32 {
             'outer: for i in 0..cps.len() {
                 for j in (i + 1)..cps.len() {
                     for (pa, pb) in [(Perm::Reverse, Perm::Reverse), (Perm::Rotate(1), Perm::Reverse), (Perm::Reverse, Perm::Rotate(1))] {
-                        if !budget.ok() || (tier == Tier::Quick && n_pairs >= 80) {
+                        if !budget.ok() || (tier == Tier::Quick && n_pairs >= 150) {
                             break 'outer;
                         }
                         n_pairs += 1;
@@ -443,7 +462,11 @@ pub fn run(tier: Tier) -> i32 {
         );
     });
     let per_subject = per_subject.into_inner().unwrap();
+    let t_subjects = start.elapsed().as_secs_f64();
     let (n_hist, n_hist_comps, hist_complete) = histories(tier, &budget, &coll);
+    if std::env::var("VERIF_TIMING").is_ok() {
+        eprintln!("C06 timing: subjects {:.1}s, histories {:.1}s", t_subjects, start.elapsed().as_secs_f64() - t_subjects);
+    }
     let report = Report {
         property: "C06".into(),
         tier,
@@ -455,6 +478,7 @@ pub fn run(tier: Tier) -> i32 {
             "samples": per_subject.iter().take(4).map(|(k, v)| json!({"subject": k, "search": v})).collect::<Vec<_>>(),
             "explanation": "states = (subject, schedule) executions of the real check + compile with every HashMap/HashSet iteration order under harness control (hook H2); a schedule assigns a permutation to one (bound 1) or two (bound 2) choice points, all others iterate in insertion order; every permutation of <= 4 entries (thorough: 5), reversal + rotations + one more beyond; each run is checked to meet the choice point it deviates at; the default schedule is run five times and must reproduce exactly (this is what catches a map that is not under the hook's control)",
             "subjects": subs.len(),
+            "subjects_left_out_as_slow_to_compile": *skipped_slow.lock().unwrap(),
             "compilation_histories": n_hist,
             "compilation_histories_note": "14 programs that share struct / enum / fn / const names with different definitions or constant values; every ordered pair (thorough: triple) compiled in one thread of a fresh process; each compilation must equal what the same program gives as the first compilation of a fresh process",
             "compilations_in_histories": n_hist_comps,
